@@ -34,7 +34,7 @@ def _claim(pid, decided, notdecided, technique, extra_note=''):
 
 
 _claim('C03',
-       'C03.R12 every masked extraction is dispatched with the requested number of phases. '
+       'C03.R12 every masked extraction is dispatched with the requested number of phases and with the amplitude the selected mode prescribes for its layer. '
        "C03.R1 residual invariant for the layer loops of sift, mask_sift, complete_ensemble_sift; C03.R2 the cap reaches "
        "the extraction only in length positions; C03.R3 affine counter relation of every cap guard simulated for cap=1..8 "
        "(columns <= cap, guard reachable, guard stops the loop); C03.R4 member column indexing bounded by the smallest "
@@ -142,7 +142,7 @@ _claim('C11',
        "floating-point summation order.",
        "finite abstract domain of index-class pairs + term decoding")
 _claim('C14',
-       'C14.R7 the bin definition used for binning and alignment (define_hist_bins: edges by scale, centres = midpoints). '
+       'C14.R7 the bin definition used for binning and alignment (define_hist_bins: edges by scale, centres = midpoints); C14.R8 no statistic is computed in, or cast to, the dtype of the observations. '
        "C14.R1 reducer argument is vals[where(label == i)] stored in slot i over range(max+1); C14.R2 NaN-initialised "
        "projection written through the same lookup; C14.R3 phase_align uses one index set for phase and value, the bin "
        "centres of define_hist_bins(0, 2pi, npoints), column = cycle; C14.R4 the bin loop of bin_by_phase covers every "
